@@ -150,7 +150,7 @@ NOWORK = [("conv1d", (1,)), ("conv_single_noncons", (2, 3)), ("conv_single_cons"
 
 
 def work_strata(tier):
-    ns = {1: [8, 9, 12, 16, 18], 2: [8, 9, 12, 16], 3: [6, 8, 9]} if tier == "quick" else {1: list(range(6, 31, 1)), 2: list(range(6, 19)), 3: list(range(6, 14))}
+    ns = {1: [3, 4, 5, 8, 9, 12, 16, 18], 2: [3, 4, 8, 9, 12, 16], 3: [3, 4, 6, 8, 9]} if tier == "quick" else {1: list(range(3, 31, 1)), 2: list(range(3, 19)), 3: list(range(3, 14))}
     return [dict(id="%s-D%d-N%d" % (v, D, N), v=v, D=D, N=N) for v, dims in NOWORK for D in dims for N in ns[D]]
 
 
@@ -177,11 +177,10 @@ def work_check(case):
     K = orc.cutoff_K(N, frac)
     key = "C09:no_work:%s" % v
     res.tag("no_work", v, "D%d" % D, "Nmod6=%d" % (N % 6))
-    if K < 1:
-        res.tag("K<1")
-        return res
     C = 3 if v == "projected3d" else 1
-    u = orc.band_limit(orc.white(case["seed"], (C,) + (N,) * D, 1.0), K) + case["mean"]
+    if K < 1:
+        res.tag("K<1")  # documented band is empty: only the claim on the band the function itself retains is made
+    u = orc.band_limit(orc.white(case["seed"], (C,) + (N,) * D, 1.0), max(K, 0)) + case["mean"]
     if v == "projected3d":
         u = orc.leray_np(u)
     dop = ex.spectral.build_derivative_operator(D, L, N)
